@@ -388,6 +388,10 @@ func genPointer(cur interface{}, forAdd bool, odd bool) string {
 				}
 				return l.ptr + "/" + t
 			}
+			if forAdd && chance(0.05) {
+				// far beyond the end, with more tokens to follow (EnsurePathExistsOnAdd pads with nulls)
+				return l.ptr + "/" + strconv.Itoa(n+16+rng.Intn(30)) + "/" + pick("x", "0", "a")
+			}
 			return l.ptr + "/" + pick(strconv.Itoa(n), "-", strconv.Itoa(n+1), "-1", strconv.Itoa(-n), strconv.Itoa(-n-1), strconv.Itoa(-n-2), "0", strconv.Itoa(rng.Intn(n+1)), "x")
 		default:
 			return l.ptr + "/" + pick("a", "0", "-")
